@@ -67,6 +67,7 @@ class Spec(unit.UnitSpec):
                 "Mmtk.SideMeta.findFirstBit_spec", "Mmtk.SideMeta.findLastBit_spec",
                 "Mmtk.SideMeta.findPrev_own_region_defect", "Mmtk.SideMeta.findPrev_own_region_defect_witness",
                 "Mmtk.SideMeta.findPrev_own_region_partial", "Mmtk.SideMeta.findNext_own_region_partial",
+                "Mmtk.SideMeta.findPrev_own_region_fixed_below", "Mmtk.SideMeta.findPrev_own_region_fixed_within",
                 "Mmtk.SideMeta.findPrev_fast_ne_simple_without_mapConsistent",
                 "Mmtk.SideMeta.scan_fast_ne_simple_unaligned_end_witness"]
     component = "side"
